@@ -882,12 +882,19 @@ def random_swan(rng, ntimes=None, nfreq=None, ndir=None, nloc=None, time=None,
     freq_kw = freq_kw or rng.choice(["AFREQ", "RFREQ"])
     dir_kw = dir_kw or rng.choice(["NDIR", "CDIR"])
     quant = quant or rng.choice(["VaDens", "EnDens"])
-    dir_style = dir_style or rng.choice(["ascending", "swan"])
+    dir_style = dir_style or rng.choice(["ascending", "swan", "rolled", "shuffled"])
     blocks = blocks or rng.choice(["FACTOR", "mixed"])
     freq = _freqs(rng, nfreq, 4, lo=300, hi=600, steps=(52, 59, 66, 75))
     dd = 360.0 / ndir
     if dir_style == "ascending":
         dirs = [dec(int(round((dd / 2 + i * dd) * 10000)), 4) for i in range(ndir)]
+    elif dir_style == "rolled":  # ascending, but the list starts somewhere else on the circle (e.g. 90 ... 330, 0 ... 60)
+        k = rng.randrange(1, ndir)
+        base = [dec(int(round((dd / 2 + i * dd) * 10000)), 4) for i in range(ndir)]
+        dirs = base[k:] + base[:k]
+    elif dir_style == "shuffled":  # any order is a legal header: each column is labelled by its own line
+        dirs = [dec(int(round((dd / 2 + i * dd) * 10000)), 4) for i in range(ndir)]
+        rng.shuffle(dirs)
     else:  # as SWAN prints: starts near 270-dd/2 and decreases through negative values
         dirs = [dec(int(round((270 - dd / 2 - i * dd) * 10000)), 4) for i in range(ndir)]
     __, times = _times(rng, ntimes, [1800, 3600, 10800], second_res=True, shuffle=shuffle)
